@@ -186,6 +186,8 @@ def arr(p, key):
     if p.get("readonly"):      # data the caller cannot write to (a read-only memory map, a view of an immutable buffer)
         a = np.array([float(t) for t in v]); a.flags.writeable = False
         return a
+    if p.get("uintdtype") and all(float(t).is_integer() and 0 <= t < 250 for t in v):      # counts held in an unsigned byte
+        return np.array([int(t) for t in v], dtype=np.uint8)
     if p.get("intdtype") and all(float(t).is_integer() and abs(t) < 2**40 for t in v):
         return POOL.get(key, [int(t) for t in v], np.int64)
     return POOL.get(key, v, float)
@@ -540,6 +542,10 @@ class OneSample(Fn):
         return probs
 
 
+RANKLIKE = {4: [[1, 1, 4, 4]], 5: [[1, 2, 2, 5, 5], [1, 1, 4, 4, 5], [1, 3, 3, 3, 5]], 6: [[1, 2, 2, 5, 5, 6], [1, 1, 3, 4, 6, 6], [1, 1, 4, 4, 5, 6]],
+            7: [[1, 2, 2, 4, 6, 6, 7], [1, 1, 3, 4, 5, 7, 7]]}
+
+
 class Corr(Fn):
     name = "corr"; site = "corr"
     spearman = False
@@ -563,7 +569,15 @@ class Corr(Fn):
                 x, y = small_values(rng, n, "ints"), small_values(rng, n, rng.choice(["ints", "halves"]))
                 if len(set(x)) > 1 and len(set(y)) > 1:
                     break
-        return {"x": x, "y": y, "reps": pick_reps(rng), "alt": rng.choice(ALTS), "plus1": rng.random() < 0.5}
+            if rng.random() < 0.2 and n in RANKLIKE:
+                # tied integer scores that look like a ranking at a glance (whole numbers, smallest 1, largest n, sum n(n+1)/2) but are not one
+                x = [float(v) for v in rng.choice(RANKLIKE[n])]; rng.shuffle(x)
+                if rng.random() < 0.5:
+                    y = [float(v) for v in rng.sample(range(1, n + 1), n)]
+        out = {"x": x, "y": y, "reps": pick_reps(rng), "alt": rng.choice(ALTS), "plus1": rng.random() < 0.5}
+        if not self.spearman and n in RANKLIKE and sorted(x) in [[float(v) for v in t] for t in RANKLIKE[n]]:
+            out["noscale"] = True
+        return out
 
     def call(self, p, prng):
         from permute import core
@@ -1074,6 +1088,8 @@ def run_recorded(ctx, names, per_fn, site_prefix="", presets=None):
                     p["container"] = "list"; ctx.count("python-sequence-inputs")
                 elif ctx.rng.random() < 0.08:
                     p["readonly"] = True; ctx.count("read-only-input-arrays")
+                elif name == "one_sample" and p.get("y") is None and ctx.rng.random() < 0.25 and all(float(t).is_integer() and 0 <= t < 250 for t in p["x"]):
+                    p["uintdtype"] = True; ctx.count("unsigned-byte-data")
             g, gkind, gseed = mk_generator(ctx.rng)
             # scalar options as they come out of NumPy computations / configuration files: np.int64 repetitions, np.bool_ / 0-1 flags
             pc = p
